@@ -882,15 +882,17 @@ def rule_id(ctx):
                     dd.add(bad('ID-SHAPE', inst, '%s is not pub' % helper, loc, 'the generated module does not compile'))
                 # ID-ATTACH: guarded by a comparison with the literal "ID"
                 has_id_test = False
-                for c in a.rconds:
-                    if c[0] == 'if':
-                        for s in P.subterms(c[1]):
-                            if s[0] == 'op' and s[1] == '==' and ('const', 'ID') in s[2]:
-                                has_id_test = True
+                # conditions that hold where the attribute is emitted: `if` tests and the guards of the match arms it sits in
+                held = [c[1] for c in a.rconds if c[0] == 'if'] + \
+                       [c[2][2] for c in a.rconds if c[0] == 'match' and len(c) > 2 and isinstance(c[2], tuple) and c[2] and c[2][0] == 'guarded']
+                for ct_ in held:
+                    for s in P.subterms(ct_):
+                        if s[0] == 'op' and s[1] == '==' and ('const', 'ID') in s[2]:
+                            has_id_test = True
                 unpreserved = []
-                for c in a.rconds:
-                    if c[0] == 'if':
-                        for s in P.subterms(c[1]):
+                for ct_ in held:
+                    if True:
+                        for s in P.subterms(ct_):
                             if s[0] == 'op' and s[1] == '==' and ('const', 'ID') in s[2]:
                                 other = [x for x in s[2] if x != ('const', 'ID')]
                                 if other and OPT + 'normalization' in TM.fields_in(other[0]) and not _id_preserving(other[0]):
